@@ -154,7 +154,7 @@ fn judge_common(ctx: &Ctx, acc: &mut Acc, class: &str, case: &dyn Fn() -> Case, 
     Some(view)
 }
 
-fn report_unsound(ctx: &Ctx, class: &str, case: &dyn Fn() -> Case, view: &View, members: serde_json::Value, concrete: Option<u128>) {
+fn report_unsound(ctx: &Ctx, acc: &mut Acc, class: &str, case: &dyn Fn() -> Case, view: &View, members: serde_json::Value, concrete: Option<u128>) {
     viol(ctx, acc, 
         format!("soundness {class}"),
         serde_json::to_value(case()).unwrap(),
@@ -209,7 +209,7 @@ fn eval_bin(ctx: &Ctx, acc: &mut Acc, tabs: &Tables, opi: usize, a: &Operand, b:
     let full = view.is_full();
     let Some(r) = r else {
         if !full {
-            report_unsound(ctx, &class, &case, &view, json!(null), None);
+            report_unsound(ctx, acc, &class, &case, &view, json!(null), None);
         }
         *cache = Some(view);
         return;
@@ -293,7 +293,7 @@ fn eval_bin(ctx: &Ctx, acc: &mut Acc, tabs: &Tables, opi: usize, a: &Operand, b:
             bad = generic_bin_witness(r, a.iv, b.iv, &view, is_bool, acc);
         }
         if let Some((x, y, v)) = bad {
-            report_unsound(ctx, &class, &case, &view, json!({"a": format!("{x:#x}"), "b": format!("{y:#x}")}), Some(v));
+            report_unsound(ctx, acc, &class, &case, &view, json!({"a": format!("{x:#x}"), "b": format!("{y:#x}")}), Some(v));
         }
     } else {
         acc.stat("results_top", 1);
@@ -333,7 +333,7 @@ fn judge_unary(ctx: &Ctx, acc: &mut Acc, class: &str, case: &dyn Fn() -> Case, a
     let full = view.is_full();
     let Some(f) = f else {
         if !full {
-            report_unsound(ctx, class, case, &view, json!(null), None);
+            report_unsound(ctx, acc, class, case, &view, json!(null), None);
         }
         return;
     };
@@ -347,7 +347,7 @@ fn judge_unary(ctx: &Ctx, acc: &mut Acc, class: &str, case: &dyn Fn() -> Case, a
     for &x in &ma {
         if let Some(v) = f(x) {
             if !view.member(v) {
-                report_unsound(ctx, class, case, &view, json!({"a": format!("{x:#x}")}), Some(v));
+                report_unsound(ctx, acc, class, case, &view, json!({"a": format!("{x:#x}")}), Some(v));
                 return;
             }
         }
@@ -495,6 +495,7 @@ fn main() {
             16,
             Acc::default,
             |acc, idx| {
+                acc.at(100, idx);
                 let (i, j) = ((idx / n) as usize, (idx % n) as usize);
                 for opi in 0..ALL_BINOPS.len() {
                     let mut cache: Option<View> = None;
@@ -541,6 +542,7 @@ fn main() {
             4,
             Acc::default,
             |acc, i| {
+                acc.at(200, i);
                 let e = flat[i as usize];
                 for op in ALL_UNOPS {
                     acc.states += 1;
@@ -570,6 +572,7 @@ fn main() {
             16,
             Acc::default,
             |acc, i| {
+                acc.at(300, i);
                 let bare = all1[i as usize];
                 // unary ops, casts, subpiece: without hints and with one hint configuration
                 for k in [0usize, 1 + i as usize] {
@@ -625,6 +628,7 @@ fn main() {
             2,
             Acc::default,
             |acc, i| {
+                acc.at(400, i);
                 let iv = &w2[i as usize];
                 let dom = build(iv);
                 for op in ALL_UNOPS {
@@ -700,6 +704,7 @@ fn main() {
             64,
             Acc::default,
             |acc, idx| {
+                acc.at(500 + w, idx);
                 let (i, j) = ((idx / nn) as usize, (idx % nn) as usize);
                 let a = Operand { iv: &ivs[i], dom: &doms[i], members1: None };
                 let b = Operand { iv: &ivs[j], dom: &doms[j], members1: None };
@@ -743,6 +748,7 @@ fn main() {
             4,
             Acc::default,
             |acc, i| {
+                acc.at(600 + w, i);
                 let (iv, dom) = (&ivs[i as usize], &doms[i as usize]);
                 for op in ALL_UNOPS {
                     if matches!(op, UnOpType::BoolNegate) {
@@ -809,6 +815,7 @@ fn main() {
     ctx.assume("division/remainder by zero has no concrete result: only defined concrete results must be members");
     ctx.assume("widening hints of results are not judged (the statement does not constrain them); hints inside the interval / of another width are reported as statistics");
     ctx.assume("a result that violates a well-formedness condition is read leniently for the soundness judgement (start >s end as wrapping, stride 0 with start != end as {start,end}), so one defect is reported under one class");
+    emit_violations(ctx);
     ctx.finish(
         "one case = (operation, operand values incl. hints); the real transfer function is called once per case, the result is read back through serde and judged for well-formedness; soundness: all members (1 byte and <=256-member intervals) or the member alphabet (large intervals) of the operands are pushed through refsem::ops and tested for membership in the result (skipped when the result interval equals the one already judged for the same operand intervals under another hint configuration); non-trivial = the abstract result is not Top, so membership was a real constraint",
         true,
